@@ -2,7 +2,7 @@
     CALLER's confirmations policy, whichever attempt (ordinary or canonical ZIP 318 crossing)
     produced the step. *)
 From V.Lib Require Import Base.
-From V.C08 Require Import Sql Model Spec ProofsSql ProofsSel ProofsProp ProofsGreedy.
+From V.C08 Require Import Sql Model ModelT ModelP Spec ProofsSql ProofsSel ProofsProp ProofsT ProofsGreedy.
 From Coq Require Import ZifyBool.
 Local Open Scope Z_scope.
 
@@ -44,33 +44,48 @@ Proof.
   repeat split; try assumption. lia.
 Qed.
 
+(** What the property demands of one transparent input of a transfer: a coin of the account, at a
+    listed address when the spend policy lists any, spendable, not locked by another owner. *)
+Definition tinput_ok (udb : list utxo_row) (target : Z) (acct : Z) (pol : policy) (zc : bool) (lp : lip)
+    (tspend : option (option (list Z))) (u : utxo_row) : Prop :=
+  In u udb /\ exists allow, tspend = Some allow
+    /\ utxo_spendable_acct target (minconf pol zc) CbNon acct allow (Some (overridable (LFPolicy lp))) u = true.
+
 Theorem proposal_inputs_at_step_anchor
-    change fuel db e tip acct pay single_payment orchard_out permitted pol lp lock canon steps :
-  NoDup (rrefs db) -> 1 <= p_trusted pol -> p_trusted pol <= p_untrusted pol ->
+    change fuel db udb e tip acct pay single_payment orchard_out permitted pol zc lp tspend lock canon steps :
+  NoDup (rrefs db) -> NoDup (map u_id udb) -> 1 <= p_trusted pol -> p_trusted pol <= p_untrusted pol ->
   (forall ci, canon = Some ci -> 0 < c_interval ci) ->
   (* the data source's anchor under the bucketed policy does not exceed the boundary it anchors to *)
   (forall ci sa, canon = Some ci -> c_sel_anchor ci = Some sa -> sa <= c_boundary ci) ->
-  propose_transfer change fuel db e tip acct pay single_payment orchard_out permitted pol lp lock canon = Ok steps ->
+  propose_transfer change fuel db udb e tip acct pay single_payment orchard_out permitted pol zc lp tspend lock canon = Ok steps ->
   NoDup (concat (map s_inputs steps))
   /\ forall s, In s steps ->
-       exists a inputs,
+       exists a inputs tins,
          s_anchor s = Some a /\ s_inputs s = rrefs inputs /\ NoDup (rrefs inputs)
-         /\ s_in_value s = sum_values inputs /\ s_tins s = [] /\ s_pay s = pay /\ step_balanced s = true
-         /\ forall r, In r inputs ->
-              In r db /\ input_ok acct (e_target e) a pol (overridable (LFPolicy lp)) permitted r.
+         /\ s_tins s = map u_id tins /\ NoDup (map u_id tins)
+         /\ s_in_value s = sum_utxos tins + sum_values inputs /\ s_pay s = pay /\ step_balanced s = true
+         /\ (forall r, In r inputs ->
+              In r db /\ input_ok acct (e_target e) a pol (overridable (LFPolicy lp)) permitted r)
+         /\ (forall u, In u tins -> tinput_ok udb (e_target e) acct pol zc lp tspend u).
 Proof.
-  intros Hn Ht Hu Hci Hsa H.
-  destruct (propose_transfer_sound _ _ _ _ _ _ _ _ _ _ _ _ _ _ _ Hn Ht Hu Hci H) as [Hnd Hs].
+  intros Hn Hnu Ht Hu Hci Hsa H.
+  destruct (propose_transfer_sound _ _ _ _ _ _ _ _ _ _ _ _ _ _ _ _ _ _ Hn Hnu Ht Hu Hci H) as [Hnd Hs].
   split; [exact Hnd|]. intros s Hin. destruct (Hs s Hin) as [anchor Ea Hok | ci bp Ec Eb Ebd Hperm Hok].
-  - destruct Hok as [inputs [H1 [H2 [H3 [H4 [H5 [[G1 G2] H6]]]]]]].
-    exists anchor, inputs. repeat (split; [assumption|]).
-    intros r Hr. destruct (G1 r Hr) as [Hdb Hb]. split; [exact Hdb|].
-    apply okrowb_parts in Hb. destruct Hb as [a' [Ea' [Hp [Hacct [Hun [Hc [Hm [_ Hl]]]]]]]].
-    rewrite Ea in Ea'. inversion Ea'; subst a'.
-    unfold input_ok. repeat split; try assumption.
-    eapply pool_preference_permitted; exact Hp.
-  - destruct Hok as [inputs [H1 [H2 [H3 [H4 [H5 [[G1 G2] H6]]]]]]].
-    exists (c_boundary ci), inputs. repeat (split; [assumption|]).
+  - destruct Hok as [inputs [tins [H1 [H2 [H3 [H4 [H5 [[G1 G2] [[T1 T2] H6]]]]]]]]].
+    exists anchor, inputs, tins. repeat (split; [assumption|]). split.
+    + intros r Hr. destruct (G1 r Hr) as [Hdb Hb]. split; [exact Hdb|].
+      apply okrowb_parts in Hb. destruct Hb as [a' [Ea' [Hp [Hacct [Hun [Hc [Hm [_ Hl]]]]]]]].
+      rewrite Ea in Ea'. inversion Ea'; subst a'.
+      unfold input_ok. repeat split; try assumption.
+      eapply pool_preference_permitted; exact Hp.
+    + intros u Hu'. destruct (T1 u Hu') as [Hon [t Hg]]. unfold tgather_of in Hg.
+      destruct tspend as [allow|]; [|discriminate].
+      apply select_transparent_sound in Hg. destruct Hg as [Hdb Hsp].
+      split; [exact Hdb|]. exists allow. split; [reflexivity | exact Hsp].
+  - destruct Hok as [inputs [tins [H1 [H2 [H3 [H4 [H5 [[G1 G2] [[T1 T2] H6]]]]]]]]].
+    assert (tins = []) as ->.
+    { destruct tins as [|u t]; [reflexivity|]. destruct (T1 u (or_introl eq_refl)) as [Hon _]. discriminate. }
+    exists (c_boundary ci), inputs, (@nil utxo_row). repeat (split; [assumption|]). split; [|intros u []].
     intros r Hr. destruct (G1 r Hr) as [Hdb Hb]. split; [exact Hdb|].
     apply okrowb_parts in Hb. cbn [e_anchor e_target] in Hb.
     destruct Hb as [sa [Esa [Hp [Hacct [Hun [Hc [Hm [_ Hl]]]]]]]].
